@@ -16,7 +16,12 @@ Words == {"Msg", "Query", "Param", "Data", "Item", "Value", "Resp", "Custom", "E
 ParamNames == Letters \cup Words
 (* names that can only be given to a contract's own type parameter (an interface reserves `Error`); they are names of traits *)
 (* and types the generated function bodies import or mention                                                            *)
-ContractOnlyWords == {"Error", "Deserialize", "Serialize", "Deps", "Env", "Binary"}
+ContractOnlyWords == {"Error", "Deserialize", "Serialize", "Deps", "Env", "Binary",
+                      \* ... of the chain simulator's parts and of the framework's own helper types and generated traits (plain words; compound
+                      \* names of generated types such as `CodeId` or `InstantiateMsg` are no conventional parameter names and are left out)
+                      "Executor", "Storage", "Api", "Module", "Bank", "Gov", "Ibc", "Wasm", "Staking", "Distribution", "Stargate",
+                      "Querier", "CustomMsg", "CustomQuery", "StdResult", "App", "Remote", "Proxy", "Reply", "SubMsg",
+                      "MessageInfo", "DepsMut", "JsonSchema", "QueryResponses", "Dispatch", "Schema", "Builder"}
 Shapes == {"generic_contract", "interface_assoc"}
 (* "generic_qualified": the contract's parameter is called like a *concrete type* in a module, and the exec and sudo handlers take that  *)
 (* type by its qualified path (`other::Param`): the parameter is used by the instantiate and query messages only                       *)
